@@ -49,3 +49,8 @@ var runSyncWord uint64
 // touched by every run.
 func runRelease() { runtime.RaceReleaseMerge(unsafe.Pointer(&runSyncWord)) }
 func runAcquire() { runtime.RaceAcquire(unsafe.Pointer(&runSyncWord)) }
+
+// BootAcquire lets a harness task that is about to call program code observe
+// everything the program did while it was starting (program tasks do this
+// on their own when they are first scheduled after the start-up).
+func BootAcquire() { bootAcquire() }
